@@ -378,6 +378,9 @@ def run_family(rep, scns, what='scenario'):
                     rep.machinery.append('%s could not be recorded: %s' % (what, c['harness_error']))
             else:
                 out.append(c)
+                if c.get('elapsed_s', 0) > rep.notes.get('slowest_scenario_s', 0):
+                    rep.notes['slowest_scenario_s'] = c['elapsed_s']
+                    rep.notes['slowest_scenario'] = [cl['src'][:80] for cl in c['calls']][:3]
     return out
 
 
